@@ -1073,7 +1073,14 @@ func (hash *SexpHash) SexpString(ps *PrintState) string {
 			onKey++
 			switch s := key.(type) {
 			case *SexpStr:
-				str += indInner + `"` + s.S + `":`
+				// quote the key like any other string, so that a quote or
+				// backslash inside it does not end the key early and the
+				// printed hash reads back.
+				if asJSON {
+					str += indInner + jsonQuote(s.S) + ":"
+				} else {
+					str += indInner + (&SexpStr{S: s.S}).SexpString(nil) + ":"
+				}
 			case *SexpSymbol:
 				if asJSON {
 					str += indInner + `"` + s.name + `":`
